@@ -1,0 +1,15 @@
+//go:build !verif
+
+// Package verifhook provides observation and fault-injection points used by
+// the external verification harness. Without the `verif` build tag every
+// function is an empty, inlinable no-op.
+package verifhook
+
+// Enabled reports whether the hooks are compiled in.
+const Enabled = false
+
+// Point marks a named program point.
+func Point(string) {}
+
+// Err marks a named I/O step; it returns err unchanged.
+func Err(_ string, err error) error { return err }
